@@ -2044,6 +2044,18 @@ fn c17(ctx: &Ctx, gi: usize, ri: usize, rep: &mut Report, note: &dyn Fn(&str)) {
         Some(r) => r,
         None => return,
     };
+    // translated from the unoptimized AST: the match tree of the reference machine on that expression
+    let graw = if e.options.contains("pest_optimizer = false") {
+        match Grammar::load_raw(e.src) {
+            Ok(x) => Some(x),
+            Err(err) => {
+                rep.model_error(format!("unoptimized grammar does not load: {}", err));
+                return;
+            }
+        }
+    } else {
+        None
+    };
     for input in &inputs {
         let case = Case {
             ctx,
@@ -2060,7 +2072,13 @@ fn c17(ctx: &Ctx, gi: usize, ri: usize, rep: &mut Report, note: &dyn Fn(&str)) {
         if b.ill_founded {
             continue;
         }
-        let body = match &b.m.ok {
+        let raw_run = graw.as_ref().map(|gr| m::run(gr, ri, input, "", &[], false, Atom::NonAtomic));
+        if let Some(r) = &raw_run {
+            if r.diverged || r.nonprogress {
+                continue;
+            }
+        }
+        let body = match raw_run.as_ref().map(|r| &r.ok).unwrap_or(&b.m.ok) {
             Some((_, _, m::MNode::Rule { inner, .. })) => inner.as_ref().clone(),
             _ => continue,
         };
